@@ -54,7 +54,29 @@ func init() {
 	}
 }
 
+func (m *machine) replayNext(name, kind string) (uint64, bool) {
+	if m.E.replayModel == nil {
+		return 0, false
+	}
+	if m.replayPos >= len(m.E.replayModel) {
+		panic(engineError{"replay: model exhausted at input " + name})
+	}
+	in := m.E.replayModel[m.replayPos]
+	m.replayPos++
+	if in.Name != name || in.Kind != kind {
+		panic(engineError{fmt.Sprintf("replay: input #%d is %s %q in the model, harness asked %s %q", m.replayPos-1, in.Kind, in.Name, kind, name)})
+	}
+	m.inputs = append(m.inputs, inputRec{Name: name, Kind: kind, Conc: in.Value})
+	return in.Value, true
+}
+
 func (m *machine) newInput(name value, w int, kind string) value {
+	if v, ok := m.replayNext(goString(name), kind); ok {
+		if w == 0 {
+			return v != 0
+		}
+		return v & mask(w)
+	}
 	m.inputSeq++
 	n := fmt.Sprintf("in%d_%s", m.inputSeq, sanitize(goString(name)))
 	t := m.ts.Var(n, w)
@@ -88,6 +110,9 @@ func vpBytes(fr *frame, a []value) value {
 func vpChoose(fr *frame, a []value) value {
 	m := fr.m
 	n := int(m.concInt(a[1], 64, "vpChoose n"))
+	if v, ok := m.replayNext(goString(a[0]), "choose"); ok {
+		return v
+	}
 	k := m.choose(n, goString(a[0]))
 	m.inputs = append(m.inputs, inputRec{Name: goString(a[0]), Kind: "choose", Conc: uint64(k)})
 	return uint64(k)
